@@ -404,11 +404,10 @@ fn main() {
         }));
     }
 
-    // In half of the executions a *sibling* slot is already initialised (configuration 7) when the race starts: slots are
+    // In half of the workloads (the driver picks workload seeds so that every slot kind occurs with and without) a *sibling* slot is already initialised (configuration 7) when the race starts: slots are
     // independent of each other, so the race must go exactly as it does in an otherwise empty process. For a fresh or
     // the internal slot the sibling is the shared slot; for the shared slot it is the internal one.
-    let mut st2 = seed ^ 0x5151_5151_5151_5151;
-    let sibling = splitmix(&mut st2) % 2 == 0;
+    let sibling = (seed / 3) % 2 == 1;
     if sibling {
         let setup = emit::setup()
             .emit_to(TagEmitter(7, shared.clone()))
